@@ -14,7 +14,8 @@ EXPLANATION = (
     "removed before the reply and the resend handler does nothing for a missing service.  Decides these mechanisms, not "
     "what later queries observe over histories."
     " (g) Purges of the rerun queue keep UnregisterResend and every other kind. (h) add_interface does not replace an existing DnsRegistry."
-    " (i) The per-interface status is never reset to Unknown while the interface is in use.")
+    " (i) The per-interface status is never reset to Unknown while the interface is in use."
+    " (j) The repeat of a goodbye is queued with is_ipv4 = true exactly in the branch that used the IPv4 socket.")
 UNDECIDED = ["what later queries observe over histories", "timing of the repeat on the wire"]
 
 
